@@ -2104,3 +2104,29 @@ Proof.
         rewrite length_splice; unfold zlen; lia.
       * intros lo' hi' full' seg' Hf' Hs' Hin. apply Hlen; auto. now right.
 Qed.
+
+(** * 10. util.partition clips its last span at [stop] (explicit form) *)
+Local Open Scope Z_scope.
+Lemma chain_in_bounds : forall a s e lo hi, Chain a s e -> In (lo, hi) s -> a <= lo /\ lo <= hi /\ hi <= e.
+Proof.
+  intros a s e lo hi H. induction H as [a|a m e r Ham Hc IH]; intros Hin; [contradiction|].
+  pose proof (chain_le _ _ _ Hc). destruct Hin as [E|Hin]; [inversion E; subst; lia | specialize (IH Hin); lia].
+Qed.
+
+Lemma chain_last : forall a s e d, Chain a s e -> s <> [] -> snd (last s d) = e.
+Proof.
+  intros a s e d H. induction H as [a|a m e r Ham Hc IH]; intros Hne; [congruence|].
+  destruct r as [|x r]; [inversion Hc; subst; reflexivity|].
+  change (last ((a, m) :: x :: r) d) with (last (x :: r) d). apply IH. discriminate.
+Qed.
+
+(** every span of partition(plo, phi, c) lies inside [plo, phi], and the last one ends exactly at phi:
+    the min(i + step, stop) of util.partition is what makes this true *)
+Theorem partition_clipped : forall plo phi c, 1 <= c -> plo <= phi ->
+  Forall (fun s => plo <= fst s /\ fst s <= snd s /\ snd s <= phi) (partition plo phi c) /\
+  (partition plo phi c <> [] -> snd (last (partition plo phi c) (0, 0)) = phi).
+Proof.
+  intros plo phi c Hc Hle. pose proof (partition_chain plo phi c Hc Hle) as Hch. split.
+  - rewrite Forall_forall. intros [lo hi] Hin. cbn [fst snd]. exact (chain_in_bounds _ _ _ lo hi Hch Hin).
+  - intros Hne. exact (chain_last _ _ _ (0, 0) Hch Hne).
+Qed.
